@@ -56,6 +56,52 @@ Definition run_gbase (fields : list str) : str :=
   | _ => lit "BADCASE"
   end.
 
+(* ["gip4"; B; "md5:<salt>"; prefixes; addresses; ops]: the same requests as the "ip4" command, executed ENTIRELY by generated code:
+   IpAnonymizer.__init__ (seeding loops, ipaddress parsing of the network strings), _generate_bit_from_hash (MD5), anonymize /
+   deanonymize / should_anonymize / _is_mask *)
+Require Import IpText G_ip_consts.
+Definition md5_call (f args : pyval) : PyLib.res :=
+  match args with
+  | VList [a; b] => gen__generate_bit_from_hash (fun _ _ => Exc Unsupported) 1%nat a b
+  | _ => Exc TypeError
+  end.
+Definition net_string (p : N * nat) : pyval := VStr (zs (print4 (fst p) ++ [47] ++ show_dec (N.of_nat (snd p)))).
+Definition g_op4 (fuel : nat) (self : pyval) (op : str) : pyval * str :=
+  match op with
+  | c :: r =>
+      match parse_dec r with
+      | None => (self, lit "BADCASE")
+      | Some x =>
+          if (c =? 115) || (c =? 109) then
+            match (if c =? 115 then gen_IpAnonymizer__should_anonymize md5_call fuel self (VInt (Z.of_N x))
+                   else gen_IpAnonymizer___is_mask md5_call fuel self (VInt (Z.of_N x))) with
+            | Normal (VTuple [VBool b; self']) => (self', if b then lit "T" else lit "F")
+            | _ => (self, lit "ERR")
+            end
+          else g_op md5_call fuel self op
+      end
+  | [] => (self, lit "BADCASE")
+  end.
+Fixpoint g_ops4 (fuel : nat) (self : pyval) (ops : list str) : list str :=
+  match ops with [] => [] | o :: r => let '(s', out) := g_op4 fuel self o in out :: g_ops4 fuel s' r end.
+Definition run_gip4 (fields : list str) : str :=
+  match fields with
+  | [_; B; sal; pfx; addrs; ops] =>
+      match parse_nat B, parse_nets pfx, parse_nets addrs with
+      | Some B', Some ps, Some ads =>
+          if starts_with (lit "md5:") sal then
+            let pv := if str_eqb pfx (lit "D") then VNone else VList (map net_string ps) in
+            match gen_IpAnonymizer____init__ md5_call 1%nat (new_obj "IpAnonymizer") (VStr (zs (skipn 4 sal))) pv (VList (map net_string ads))
+                    (VDict [(S_ "preserve_suffix", VInt (Z.of_nat B'))]) with
+            | Normal (VTuple [_; self]) => join [32] (g_ops4 34%nat self (Str.split_on 32 ops))
+            | _ => lit "ERR"
+            end
+          else lit "BADCASE"
+      | _, _, _ => lit "BADCASE"
+      end
+  | _ => lit "BADCASE"
+  end.
+
 (* ["gjenc"; plain; salt] / ["gjdec"; crypt]: the $9$ codec as GENERATED from utils/juniper_secrets.py (gen/G_fn_jun.v) *)
 Require Import G_fn_jun.
 Definition no_call (f a : pyval) : PyLib.res := Exc TypeError.
